@@ -117,16 +117,18 @@ def load_findings():
 
 
 def open_deviations(prop):
-    """Names of the spec deviations of the open findings listed for this property."""
+    """Names of the spec deviations enabled in this property's check: those of its own open findings
+    and those of other properties' findings whose behaviour also shows up in this check's traces."""
     kf = load_findings()
-    return sorted({e["deviation"] for e in kf.get("open", []) if e["property"] == prop and e.get("deviation")})
+    return sorted({e["deviation"] for e in kf.get("open", [])
+                   if e.get("deviation") and (e["property"] == prop or prop in e.get("also_in", []))})
 
 
-def finding_text(prop, deviation):
+def finding_of(deviation):
     for e in load_findings().get("open", []):
-        if e["property"] == prop and e.get("deviation") == deviation:
-            return e["what"]
-    return deviation
+        if e.get("deviation") == deviation:
+            return e
+    return {"property": "?", "what": deviation}
 
 
 def write_evidence(prop, tier, level, coverage, assumptions, wall, violations, extra=None):
